@@ -266,6 +266,17 @@ EndToEnd == EndToEndOn(store, hist, built)
 StoreIsApprovedSubsetOn(st, lo) == \A o \in st : \E l \in lo : l.wk = o.wk /\ o = UploadRep(l)
 StoreIsApprovedSubset == StoreIsApprovedSubsetOn(store, local)
 
+(* the server stores only what validates: a non-zero X and approved contents (C12, C11) *)
+StoreValidOn(st) == \A o \in st : ServerOK(o)
+StoreValid == StoreValidOn(store)
+
+(* an increment lands in the file of the current span and nowhere else (C09) *)
+IncLandsOn(p, n, d, w, fB, fA) ==
+    LET b == Begin(d)  e == End(d, w)
+        old == {c \in fB : c.p = p /\ c.b = b /\ c.e = e /\ c.n = n}
+    IN fA = (fB \ old) \cup {[p |-> p, b |-> b, e |-> e, n |-> n, v |-> SumV(old) + 1]}
+IncLands == [][(last'.op = "inc" /\ EffMode(mf) # "off") => IncLandsOn(last'.p, last'.n, day, wend, files, files')]_vars
+
 (* a week is marked uploaded exactly when the server stored its report *)
 MarkersMatchStoreOn(st, up) == /\ \A o \in st : o \in up
                                /\ \A u \in up : u \in st
